@@ -1,6 +1,29 @@
 import BppProofs.Lemmas.DistGuards
 /-!
 # C08 — cumulative and quantile functions   (src/Bpp/Numeric/Random/RandomTools.{h,cpp})
+
+Level `other`: partial proof + exploration.  What is proved here, for *all* arguments, in the
+exact-arithmetic (`ℝ`) reading of the transcribed code (rounding is not modelled):
+
+* `pNorm` (Cody's three rational ranges, transcribed exactly, `exp`/`trunc` abstract):
+  `pnorm_reflect` (reflection identity on `|x| < 8.2924 ∨ 37.5193 ≤ |x|`), `pnorm_reflect_gap` and
+  `pnorm_reflect_fails_in_gap` (what holds between the cut-offs: the code uses different formulas
+  for the two tails there), `pnorm_ends`, `pnorm_range`, `pnorm_zero`.
+* `qNorm` (Odeh–Evans, transcribed exactly): `guards_total_qNorm` (error value iff
+  `p < 1e-20 ∨ p > 1 - 1e-20`), `qnorm_bounded`, `qnorm_reflect`.
+* the guard / wrapper layer with the numeric kernels as abstract parameters (`Kernels`):
+  `guards_total_*` — decision tables of the argument checks of `incompleteGamma`, `pGamma`,
+  `pChisq`, `qChisq`, `qGamma`, `qNorm(p,μ,σ)`, `incompleteBeta`/`pBeta`, `qBeta`;
+  `wrapper_*`, `pGamma_scale`, `qGamma_scale`, `normal_affine_inverts` — wrapper identities;
+  `qGamma_inverts` — relative inverse theorem; `affine_monotone_*`, `incompleteGamma_monotone` —
+  monotone kernels give monotone wrappers.
+* witnesses of the defects of the snapshot that were repaired in the library:
+  `qGammaOld_rescales_sentinel`, `qNorm3Old_rescales_sentinel`,
+  `incompleteGammaOld_zero_shadows_check`.
+
+NOT proved (explored numerically by the check, `coverage.search_*`): accuracy, monotonicity and
+inverse relations of the kernels (incomplete gamma series / continued fraction, AS91, Cephes
+incomplete beta, AS109, and `pNorm`'s / `qNorm`'s closeness to Φ, Φ⁻¹).
 -/
 namespace Bpp.C08
 open Bpp Bpp.Scalar Bpp.PNorm Bpp.DistGuards
@@ -531,6 +554,59 @@ theorem affine_monotone_qGamma (K : Kernels ℝ) (a b : ℝ) (hb : 0 < b)
   rw [wrapper_qGamma K p a b (by rw [e1]; exact hpos p), wrapper_qGamma K q a b (by rw [e2]; exact hpos q),
     e1, e2]
   exact div_le_div_of_nonneg_right hmono (by linarith)
+
+/-! ## Further exact facts -/
+
+/-- special case: the median, for every `exp` and `trunc` -/
+theorem pnorm_zero (ex tr : ℝ → ℝ) : pNorm ex tr 0 = 1 / 2 := by
+  have h0 := cut1_pos
+  have c1 : |(0 : ℝ)| ≤ cut1 := by rw [abs_zero]; exact le_of_lt h0
+  rw [pNorm_real, if_pos c1, central_real]
+  simp [centralTemp]
+
+/-- inside its domain the standard normal quantile is a number of ordinary size (so the error
+value -9999 cannot be mistaken for a quantile) -/
+theorem qnorm_bounded (p : ℝ) (h : qNormSentinel p = false) : |qNorm p| ≤ 12 := by
+  have hs : ¬ (qP1 p < qEps) := by simpa [qNormSentinel] using h
+  rw [qNorm_real, if_neg hs]
+  have hb := qZ_bd (qP1 p)
+  have hy := qY_le (not_lt.mp hs)
+  have hy0 := Real.sqrt_nonneg (Real.log (1 / (qP1 p * qP1 p)))
+  split <;> rw [abs_le] <;> constructor <;> linarith [hb.1, hb.2]
+
+/-- rate scaling of the gamma cdf: `pGamma x α β = pGamma (β x) α 1` -/
+theorem pGamma_scale (K : Kernels ℝ) (x a b : ℝ) (ha : 0 < a) (hb : 0 ≤ b) :
+    pGamma K x a b = pGamma K (b * x) a 1 := by
+  rw [(guards_total_pGamma K x a b).2.2.2 ha hb, (guards_total_pGamma K (b * x) a 1).2.2.2 ha (by norm_num),
+    one_mul]
+
+/-- rate scaling of the gamma quantile: `qGamma p α β = qGamma p α 1 / β` for `β ≠ 0`, as long as
+`qChisq` reported no error -/
+theorem qGamma_scale (K : Kernels ℝ) (p a b : ℝ) (hb : b ≠ 0) (h : 0 ≤ qChisq K p (2 * a)) :
+    qGamma K p a b = qGamma K p a 1 / b := by
+  rw [wrapper_qGamma K p a b h, wrapper_qGamma K p a 1 h]
+  field_simp
+
+/-- under the AS109 kernel's contract (no exception for positive shapes) `qBeta` raises, for
+positive shapes, **iff** the probability is outside `[0,1]` -/
+theorem qBeta_exc_iff (K : Kernels ℝ) (hK : ∀ p a b, 0 < a → 0 < b → K.qBetaCore p a b ≠ .exc)
+    (p a b : ℝ) (ha : 0 < a) (hb : 0 < b) : qBeta K p a b = .exc ↔ (p < 0 ∨ 1 < p) := by
+  obtain ⟨h1, h2, h3, h4⟩ := guards_total_qBeta K p a b
+  constructor
+  · intro h
+    by_contra hn
+    push Not at hn
+    rcases eq_or_lt_of_le hn.1 with e0 | l0
+    · rw [← e0, ((guards_total_qBeta K 0 a b).2.2.1 (le_of_lt ha) (le_of_lt hb)).1] at h; cases h
+    · rcases eq_or_lt_of_le hn.2 with e1 | l1
+      · rw [e1, ((guards_total_qBeta K 1 a b).2.2.1 (le_of_lt ha) (le_of_lt hb)).2] at h; cases h
+      · rw [h4 (le_of_lt ha) (le_of_lt hb) l0 l1] at h
+        exact hK p a b ha hb h
+  · intro h
+    apply h1; rw [h2]
+    rcases h with h | h
+    · exact Or.inl h
+    · exact Or.inr (Or.inl h)
 
 /-! ## Non-vacuity: kernels meeting the contracts used above exist -/
 
